@@ -127,7 +127,11 @@ def impl(case):
     from urllib3.exceptions import LocationValueError, URLSchemeUnknown
     defaults, reqs = materialise(case)
     try:
-        pm = urllib3.PoolManager(num_pools=50, **defaults)
+        if case.get("proxy"):
+            # a ProxyManager: http targets are served by the pool of the proxy itself, https targets by a pool per target (tunnel)
+            pm = urllib3.ProxyManager("%s://proxy.example:3128" % case["proxy"], num_pools=50, **defaults)
+        else:
+            pm = urllib3.PoolManager(num_pools=50, **defaults)
     except TypeError:
         return [[1]] * len(reqs)
     snap = dict(pm.connection_pool_kw)
@@ -191,7 +195,10 @@ def oracle(case, obs):
             cfgs.append(None); continue
         sch = (s or "http").lower()
         port = p or (443 if sch == "https" else 80)
-        cfgs.append((sch, h.lower(), port, effective(defaults, kw)))
+        if case.get("proxy") and sch == "http":
+            cfgs.append(("via", "proxy.example", 3128, effective(defaults, kw)))      # forwarded: one pool per setting, whatever the target
+        else:
+            cfgs.append((sch, h.lower(), port, effective(defaults, kw)))
     for i in range(len(cfgs)):
         for j in range(i + 1, len(cfgs)):
             if cfgs[i] is None or cfgs[j] is None:
@@ -218,6 +225,10 @@ def signature(case, obs, msg):
         sig["differs"] = m.split("differ in ")[1].split(" (")[0]
         sig["cross_type"] = m.endswith("(bool vs int of equal numeric value)")
     return sig
+
+
+def in_model_domain(case):
+    return not case.get("proxy")
 
 
 def nontrivial(case, obs):
@@ -332,4 +343,17 @@ def cases(rng, tier):
         defaults = {k1: v1} if (rng.random() < 0.5 and k1 != "headers") else {}
         reqs = [{"host": h, "port": p, "scheme": s, "kw": rng.choice([None, {k2: v2}, {k1: w1}, {k1: w1, k2: v2}, {k1: ["none"]}])} for _ in range(rng.randint(2, 4))]
         out.append({"defaults": defaults, "reqs": reqs})
+    # the same through a ProxyManager (http and https proxy): per-request settings still separate pools, for forwarded and for tunnelled targets
+    for proxy in ("http", "https"):
+        for kw in kws:
+            if kw in ("_proxy", "_proxy_headers", "_proxy_config"):
+                continue          # a ProxyManager sets these itself
+            vals = values_for(kw)
+            for a in range(len(vals)):
+                for sch in ("http", "https"):
+                    out.append({"proxy": proxy, "defaults": {}, "reqs": [{"host": "example.com", "port": None, "scheme": sch, "kw": None},
+                                                                         {"host": "example.com", "port": None, "scheme": sch, "kw": {kw: vals[a]}},
+                                                                         {"host": "other.example", "port": None, "scheme": sch, "kw": {kw: vals[a]}},
+                                                                         {"host": "example.com", "port": None, "scheme": sch, "kw": {kw: vals[(a + 1) % len(vals)]}},
+                                                                         {"host": "example.com", "port": None, "scheme": sch, "kw": None}]})
     return out
